@@ -68,9 +68,11 @@ impl Prop for C07 {
         };
         // final silence long enough for both runs to drain whatever is pending
         let tail = quiescence_bound(&case.cfg, &case.ops).min(70_000);
+        let zch0 = kanata_state_machine::verif_seam::ZCH_EFFECTIVE_FORCED_RESETS.load(std::sync::atomic::Ordering::Relaxed);
         a.run_ops(&case.ops);
         a.gap(tail);
         a.finish();
+        let zch_resets_ticking = kanata_state_machine::verif_seam::ZCH_EFFECTIVE_FORCED_RESETS.load(std::sync::atomic::Ordering::Relaxed) - zch0;
         let ta = std::mem::take(&mut a.trace);
         let pa = a.probes.clone();
         drop(a);
@@ -97,6 +99,11 @@ impl Prop for C07 {
         }
         if case.ops.iter().any(|op| matches!(op, Op::Gap(n) if *n >= 10_000)) {
             tags.push("gap>=10000".into());
+        }
+        // attribution for the known zippychord finding (hook H2): zippy's 10000-tick contingency
+        // reset changed zippy's state during the ticking run
+        if zch_resets_ticking > 0 {
+            tags.push("zippy-contingency-reset-fired".into());
         }
         // (1) nothing is output after the decision was true
         if let Some(e) = ta.outputs_while_blockable.first() {
